@@ -27,7 +27,7 @@ rc=0
 for p in "$@"; do
   W="$TMP/vcheck"; [ "$p" = C18 ] && W="$TMP/vcheck-race"
   out="$(VERIF_ROOT="$TMP/root" "$TMP/vcheck" run "$p" --tier "${TIER:-quick}" --worker-exe "$W" 2>&1)"; code=$?
-  keys="$(echo "$out" | grep -o 'key=[^ ]*' | sort -u | tr '\n' ' ')"
+  keys="$(echo "$out" | grep -o 'key=[^ ]*' | sort -u | head -8 | tr '\n' ' ')"
   case $code in
     1) echo "CAUGHT $p $keys" ;;
     0) echo "MISSED $p"; rc=1 ;;
